@@ -78,7 +78,7 @@ extern "C" void h_step(void) {
     __CPROVER_assume(env.sigversion == SigVersion::BASE || env.sigversion == SigVersion::WITNESS_V0 || env.sigversion == SigVersion::TAPSCRIPT);
 #endif
 #ifdef H_SV
-    __CPROVER_assume((int)env.sigversion == H_SV);
+    env.sigversion = (SigVersion)H_SV;      // (assigned, not assumed: an assumed equality is not constant-propagated)
 #endif
 #ifdef H_SV_PRE
     __CPROVER_assume(env.sigversion == SigVersion::BASE || env.sigversion == SigVersion::WITNESS_V0);
@@ -134,7 +134,9 @@ extern "C" void h_step(void) {
     g_getop_calls = 0;
     g_locktime_ok = nondet_bool(); g_sequence_ok = nondet_bool(); g_locktime_calls = 0; g_sequence_calls = 0;
     g_hash_calls = 0; g_hash_algo = 0;
+#ifndef H_SIG
     for (int i = 0; i < 32; ++i) g_hash_out[i] = nondet_uchar();
+#endif
 #ifdef H_CAT_LIMIT
     // storage bound of the model: the concatenation must fit into one modelled element
     __CPROVER_assume(H_N < 2 || st.w[H_N >= 2 ? H_N - 1 : 0].n + st.w[H_N >= 2 ? H_N - 2 : 0].n <= VERIF_ITEM_CAP);
@@ -142,7 +144,7 @@ extern "C" void h_step(void) {
 #ifdef H_SIG
     // oracles of the signature opcodes: arbitrary verdicts, fixed for this step
     SpecSigOracles orc; SpecSigUse use;
-    for (int i = 0; i < 24; ++i) { g_ecdsa_ok[i] = nondet_bool(); orc.ecdsa_ok[i] = g_ecdsa_ok[i]; int f = nondet_int(); __CPROVER_assume(f >= 0 && f <= 3); g_fad_result[i] = f; orc.fad_result[i] = f; }
+    for (int i = 0; i < VERIF_ORACLE_N; ++i) { g_ecdsa_ok[i] = nondet_bool(); orc.ecdsa_ok[i] = g_ecdsa_ok[i]; int f = nondet_int(); __CPROVER_assume(f >= 0 && f <= 3); g_fad_result[i] = f; orc.fad_result[i] = f; }
     g_ecdsa_calls = 0; g_fad_calls = 0; g_schnorr_calls = 0; g_lows_calls = 0;
     g_schnorr_ok = nondet_bool(); g_schnorr_err = nondet_int(); __CPROVER_assume(g_schnorr_err >= (int)SCRIPT_ERR_SCHNORR_SIG_SIZE && g_schnorr_err <= (int)SCRIPT_ERR_SCHNORR_SIG);
     g_lows_ok = nondet_bool(); orc.schnorr_ok = g_schnorr_ok; orc.schnorr_err = g_schnorr_err; orc.lows_ok = g_lows_ok;
@@ -165,7 +167,9 @@ extern "C" void h_step(void) {
     c.flags = flags; c.allow_disabled = env.allow_disabled_opcodes; c.getop_ok = g_getop_ok; c.opcode = opbyte; c.push = g_getop_push;
     c.sv = env.sigversion == SigVersion::BASE ? SSV_BASE : (env.sigversion == SigVersion::WITNESS_V0 ? SSV_WITNESS_V0 : (env.sigversion == SigVersion::TAPROOT ? SSV_TAPROOT : SSV_TAPSCRIPT));
     c.locktime_ok = g_locktime_ok; c.sequence_ok = g_sequence_ok; c.opcode_pos = env.opcode_pos;
+#ifndef H_SIG
     for (int i = 0; i < 32; ++i) c.hash_out[i] = g_hash_out[i];
+#endif
     s.stack = st; s.alt = env.altstack; s.cs_size = cs_size0; s.cs_first_false = cs_ff0; s.nOpCount = env.nOpCount;
     s.codesep_moved = false; s.codesep_pos = env.execdata.m_codeseparator_pos;
     s.locktime_calls = 0; s.sequence_calls = 0; s.locktime_arg = 0; s.sequence_arg = 0; s.hash_calls = 0; s.hash_algo = 0;
@@ -227,7 +231,7 @@ extern "C" void h_step(void) {
     __CPROVER_assert(env.execdata.m_validation_weight_left == use.weight, "step: the tapscript signature budget is charged exactly 50 per non-empty signature checked");
     __CPROVER_assert(g_schnorr_calls == use.schnorr_calls && (use.schnorr_calls == 0 || (g_schnorr_sig == use.schnorr_sig && g_schnorr_key == use.schnorr_key)), "step: Schnorr verification is requested exactly when prescribed, for the given signature and key");
     __CPROVER_assert(g_ecdsa_calls >= use.ecdsa_calls, "step: every prescribed ECDSA verification is requested");
-    for (int i = 0; i < 24; ++i) if (i < use.ecdsa_calls) __CPROVER_assert(g_ecdsa_sig[i] == use.ecdsa_sig[i] && g_ecdsa_key[i] == use.ecdsa_key[i], "step: signatures are matched to keys in order (i-th verification is for the prescribed signature/key pair)");
+    for (int i = 0; i < VERIF_ORACLE_N; ++i) if (i < use.ecdsa_calls) __CPROVER_assert(g_ecdsa_sig[i] == use.ecdsa_sig[i] && g_ecdsa_key[i] == use.ecdsa_key[i], "step: signatures are matched to keys in order (i-th verification is for the prescribed signature/key pair)");
     __CPROVER_assert(env.flags == flags0 && env.sigversion == sv0 && env.fRequireMinimal == rm0 && env.allow_disabled_opcodes == ad0 && env.opcode_pos == oppos0 && env.pend == pend0 && env.script.n == scrn0, "frame: flags, script version, options and script bounds are unchanged by a signature operation");
 #else
     __CPROVER_assert(env.flags == flags0 && env.sigversion == sv0 && env.fRequireMinimal == rm0 && env.allow_disabled_opcodes == ad0 && env.opcode_pos == oppos0 && env.execdata.m_validation_weight_left == vw0 && env.pend == pend0 && env.script.n == scrn0, "frame: flags, script version, options, script bounds and signature budget are unchanged by a non-signature operation");
